@@ -1,8 +1,8 @@
 #!/bin/sh
-# usage: prep_wt.sh <dir>   -- create a buildable scratch worktree of /repo HEAD at <dir>
+# usage: prep_wt.sh <dir> [<commit>]  -- create a buildable scratch worktree of /repo (HEAD or <commit>) at <dir>
 set -e
 d="$1"
-git -C /repo worktree add -q "$d" HEAD
+git -C /repo worktree add -q --detach "$d" "${2:-HEAD}"
 rsync -a --ignore-existing --exclude .git --exclude '*.o' --exclude '*.lo' --exclude '*.la' --exclude '.libs' --exclude '.deps' --exclude 'Makefile' --exclude 'config.status' --exclude 'config.log' --exclude 'libtool' --exclude 'givaro-config.h' --exclude 'config.h' --exclude 'stamp-h1' --exclude 'tests/test-*[a-z0-9]' /repo/ "$d"/
 cd "$d" && ./configure --quiet >/dev/null 2>&1
 echo "ready: $d  (build: make -j8 ; tests: make -C tests -j8 check)"
